@@ -1,18 +1,20 @@
 #!/usr/bin/env python3
 """Runs the checks against every kept seeded change (seeded/<PROP>/<n>/patch.diff) in scratch worktrees and records
-the outcome as "final_check" in its meta.json. usage: seedsweep.py [tier] [jobs] [PROP...]"""
+the outcome as "final_check" in its meta.json. usage: seedsweep.py [tier] [jobs] [PROP...]
+SEEDS=C01/13,C05/14,... restricts the sweep to those changes."""
 import json, os, re, subprocess, sys, concurrent.futures
 V = os.path.dirname(os.path.dirname(os.path.abspath(__file__)))
 tier = sys.argv[1] if len(sys.argv) > 1 else "quick"
 jobs = int(sys.argv[2]) if len(sys.argv) > 2 else 3
 only = set(sys.argv[3:])
+seeds = set(filter(None, os.environ.get("SEEDS", "").split(",")))
 items = []
 for prop in sorted(os.listdir(os.path.join(V, "seeded"))):
     if only and prop not in only:
         continue
     for n in sorted(os.listdir(os.path.join(V, "seeded", prop))):
         d = os.path.join(V, "seeded", prop, n)
-        if os.path.exists(os.path.join(d, "patch.diff")):
+        if os.path.exists(os.path.join(d, "patch.diff")) and (not seeds or "%s/%s" % (prop, n) in seeds):
             items.append((prop, n, d))
 
 def one(it):
